@@ -393,7 +393,10 @@ class Lst:
             if is_concrete(i):
                 return items[i]
             if not items:
-                raise EngineError("index into empty list")
+                # only reachable in specification expressions under a vacuous range guard
+                if isinstance(elem, tuple) and elem[0] == "tuple":
+                    return tuple(z3.Const(fresh_name("nil"), sort_of(k)) for k in elem[1])
+                return z3.Const(fresh_name("nil"), sort_of(elem if isinstance(elem, str) else "int"))
             return _select(items, i)
 
         return Lst(len(items), get, elem, items)
